@@ -531,7 +531,18 @@ func (t *Task) query(o *Obligation, extra []string) string {
 			b.WriteString(")\n")
 		}
 	}
+	// quantified facts about ghost identities (the general injectivity of method identities) only matter when the query
+	// has another quantifier to instantiate them with; ground queries keep the per-term facts and stay decidable ("sat")
+	quantified := strings.Contains(b.String(), "(forall ") || strings.Contains(b.String(), "(exists ") || strings.Contains(o.Goal, "(forall ") || strings.Contains(o.Goal, "(exists ") || strings.Contains(o.Pc, "(forall ")
+	for _, x := range extra {
+		if strings.Contains(x, "(forall ") || strings.Contains(x, "(exists ") {
+			quantified = true
+		}
+	}
 	for _, x := range t.lateFacts {
+		if !quantified && strings.HasPrefix(x, "(forall ") {
+			continue
+		}
 		b.WriteString("(assert " + x + ")\n")
 	}
 	for _, x := range extra {
